@@ -763,3 +763,14 @@ package zerolog
 
 // C02: Fields encodes a []byte value as Event.Bytes does (documented in the README table of field types).
 //@ effect agreement field []byte Bytes
+
+// ---------------------------------------------------------------------------
+// C16: the quoting rule of the console writer (the rest of C16 is checked by a
+// bounded enumeration against a reference renderer, see /verif/DESIGN.md).
+//@ func needsQuote(s) res
+//@   props C16
+//@   arith int
+//@   ensures res == (exists k in 0..len(s): s[k] < 32 || s[k] > 126 || s[k] == 32 || s[k] == 92 || s[k] == 34)
+//@   loop 1:
+//@     invariant 0 <= rangepos && rangepos <= len(s)
+//@     invariant forall k in 0..rangepos: !(s[k] < 32 || s[k] > 126 || s[k] == 32 || s[k] == 92 || s[k] == 34)
